@@ -29,6 +29,7 @@ CONSTANTS MaxObj,        \* boxes ever allocated in one behaviour (serials 1..Ma
           Policy,        \* "always" (checked builds) | "paced" (optimised) | "schedule" (every subset)
           InitBudget,    \* HEAP_INIT_BYTES_MAX in allocation units
           Growth,        \* HEAP_GROWTH_FACTOR
+          Mutators,      \* which mutator actions the configuration explores ("clone","asroot","drop","link","unlink")
           MarksInBlacken,\* TRUE = ObjBoundMethod::blacken as it was before the fix (receiver.mark())
           KeepHist
 
@@ -197,9 +198,11 @@ Unlink(o, l) ==
 MoreToCome == next <= MaxObj
 
 Next == \/ \E k \in Kinds : AllocByPolicy(k)
-        \/ MoreToCome /\ \E o \in Serials : CloneRoot(o) \/ AsRoot(o) \/ DropRoot(o)
-        \/ MoreToCome /\ \E o, p \in Serials, l \in Labels : Link(o, l, p)
-        \/ MoreToCome /\ \E o \in Serials, l \in Labels : Unlink(o, l)
+        \/ MoreToCome /\ "clone" \in Mutators /\ \E o \in Serials : CloneRoot(o)
+        \/ MoreToCome /\ "asroot" \in Mutators /\ \E o \in Serials : AsRoot(o)
+        \/ MoreToCome /\ "drop" \in Mutators /\ \E o \in Serials : DropRoot(o)
+        \/ MoreToCome /\ "link" \in Mutators /\ \E o, p \in Serials, l \in Labels : Link(o, l, p)
+        \/ MoreToCome /\ "unlink" \in Mutators /\ \E o \in Serials, l \in Labels : Unlink(o, l)
 
 Spec == Init /\ [][Next]_vars
 
